@@ -924,7 +924,7 @@ package query
 // behind every field) are shared with the cached table, open cursors and restore points, so no statement may store
 // into an existing cell: every store into cell storage must hit a cell allocated by the statement itself.
 //@ func Update
-//@   property C14 C08
+//@   property C14 C08 C16 C20
 //@   ownwrites E:value.Primary# E:parser.QueryExpression# E:parser.Statement#
 //@   ensures [failed-statement-publishes-nothing] result2 != nil ==> published == old(published)
 //@   ghostset after call (query.ViewMap).Set#*: published = published + 1
